@@ -55,7 +55,7 @@ func (c13) Gen(r *rand.Rand, tier string, idx int) *core.Plan {
 	for i := 0; i < n; i++ {
 		switch x := r.IntN(20); {
 		case x < 7:
-			p.Ops = append(p.Ops, core.Op{Kind: "writecert", S: []string{validType(), storeName(), c13Files[r.IntN(len(c13Files))]}, I: []int64{int64(r.IntN(10)), int64(r.IntN(6))}})
+			p.Ops = append(p.Ops, core.Op{Kind: "writecert", S: []string{validType(), storeName(), c13Files[r.IntN(len(c13Files))]}, I: []int64{int64(r.IntN(14)), int64(r.IntN(6))}})
 		case x < 9:
 			p.Ops = append(p.Ops, core.Op{Kind: "writebad", S: []string{validType(), storeName(), c13Files[r.IntN(len(c13Files))]}, I: []int64{int64(r.IntN(6)), int64(r.IntN(1001))}})
 		case x < 10:
@@ -180,7 +180,10 @@ func (l c13) Exec(env *core.Env) *core.Result {
 	look := world.NewCert(nil, world.CertOpts{CN: "lookalike-leaf", EKU: []x509.ExtKeyUsage{x509.ExtKeyUsageCodeSigning}, Lookalike: true})
 	lookCA := world.NewCert(nil, world.CertOpts{CN: "lookalike-ca", IsCA: true, PathLen: -1, Lookalike: true})
 	material := [][]*x509.Certificate{{ca.Cert}, {inter.Cert}, {ssLeaf.Cert}, {leaf.Cert}, {ca.Cert, ca2.Cert}, {ca.Cert, leaf.Cert}, {ca2.Cert},
-		{look.Cert}, {lookCA.Cert}, {ca.Cert, look.Cert}}
+		{look.Cert}, {lookCA.Cert}, {ca.Cert, look.Cert},
+		// a certificate that does not belong FIRST, one that does last (chain order, as bundles are usually written):
+		// every certificate of a file counts, not the last one
+		{inter.Cert, ca.Cert}, {leaf.Cert, ca.Cert}, {look.Cert, ca2.Cert}, {inter.Cert, leaf.Cert, ca.Cert}}
 	// an unrelated directory with a valid certificate, the target of symlinked stores
 	elsewhere := filepath.Join(env.Dir, "elsewhere")
 	os.MkdirAll(elsewhere, 0755)
